@@ -16,10 +16,10 @@ import (
 // everything else as an injective token "?<hash>:<len>".
 
 type absCtx struct {
-	root    string // scratch run root, mapped to /R
-	drvDir  string // driver source dir, mapped to /R/prog via root
-	tokens  map[string]string
-	goJSON  map[string]string // json.Marshal text of the driver's named Go values
+	root   string // scratch run root, mapped to /R
+	drvDir string // driver source dir, mapped to /R/prog via root
+	tokens map[string]string
+	goJSON map[string]string // json.Marshal text of the driver's named Go values
 }
 
 func newAbsCtx(root string, goJSON map[string]string) *absCtx {
@@ -308,12 +308,12 @@ func matchersString(ms []*Matcher) string {
 // ---------------------------------------------------------------- summary parsing
 
 type Summary struct {
-	Present                                  bool
+	Present                                 bool
 	Passed, Failed, Added, Updated, Skipped int
-	NFiles, NTests                           int
-	Files, Tests                             []string
-	Removed                                  bool
-	Unknown                                  []string // lines no rule of this reader covers
+	NFiles, NTests                          int
+	Files, Tests                            []string
+	Removed                                 bool
+	Unknown                                 []string // lines no rule of this reader covers
 }
 
 var (
@@ -632,15 +632,15 @@ func losslessJSON(a *absCtx, st *Step, e *RawEvent, logk string, expect string) 
 	if expect != "" {
 		in, ok = expect, true
 	} else {
-	switch st.Val.K {
-	case "str", "bytes", "rawmsg":
-		b, _ := base64.StdEncoding.DecodeString(st.Val.B64)
-		in, ok = string(b), true
-	case "gojson":
-		in, ok = goJSONText(st.Val)
-	case "go":
-		in, ok = a.goJSON[st.Val.Name]
-	}
+		switch st.Val.K {
+		case "str", "bytes", "rawmsg":
+			b, _ := base64.StdEncoding.DecodeString(st.Val.B64)
+			in, ok = string(b), true
+		case "gojson":
+			in, ok = goJSONText(st.Val)
+		case "go":
+			in, ok = a.goJSON[st.Val.Name]
+		}
 	}
 	if !ok {
 		return "na"
